@@ -17,6 +17,9 @@ TRUSTED_BASE = ['the name of a key column is the source text of its expression (
 ASSUMPTIONS = []
 
 
+RESERVED_START = re.compile(r'(parse|limit|json|logfmt|total|fields|where|split|timeslice|count_distinct|min|max|sum|avg|average|sort|apache|nginx|k8singressnginx|testmultioperator)\b(?!\()')
+
+
 def split_strings(q):
     """-> list of (is_string, text)"""
     out = []
@@ -234,7 +237,11 @@ def explore(ctx):
             continue
         ref = canon[qi]
         if o['rc'] != ref['rc'] or o['out'] != ref['out']:
-            failures.append({'kind': 'spec', 'what': 'two spellings of one query give different results (rc %s vs %s)' % (ref['rc'], o['rc']),
+            known = None
+            if 'stage_starts_with_reserved_word' in ctx.get('known_classes', ()) and any(
+                    st[0] == 'let' and RESERVED_START.match(qast.expr_text(st[1])) for st in base[qi][1]):
+                known = 'KF-30'
+            failures.append({'kind': 'spec', 'known': known, 'what': 'two spellings of one query give different results (rc %s vs %s)' % (ref['rc'], o['rc']),
                              'payload': {'query': q2, 'canonical_spelling': base[qi][0], 'input_lines': lines,
                                          'output': o['out'].decode('utf8', 'replace')[:600], 'canonical_output': ref['out'].decode('utf8', 'replace')[:600],
                                          'stderr': o['err'].decode('utf8', 'replace')[-300:]}})
